@@ -186,7 +186,8 @@ func TestVerifC02Text(t *testing.T) {
 		jobs = append(jobs, base+"route weight sb /p weight "+w+"\nroute del sa\n")
 	}
 	// host patterns that are not valid globs, and lines longer than the scanner's token limit
-	for _, h := range []string{"[a", "{a", "a[", "*.[", "foo.com[", "\\"} {
+	// (a range may be well formed as written and ill formed in the lower-cased form the table stores, and vice versa)
+	for _, h := range []string{"[a", "{a", "a[", "*.[", "foo.com[", "\\", "[Z-a].example.com", "srv-[X-b]*.example.com", "[!Q-h].example.com", "[a-Z].example.com", "[z-a].example.com", "{A,b}.example.com", "[A-Z].example.com"} {
 		jobs = append(jobs, "route add s "+h+"/ http://10.0.0.1:80/\n")
 		jobs = append(jobs, "route add ok foo.com/ http://10.0.0.2:80/\nroute add s "+h+"/x http://10.0.0.1:80/\n")
 	}
